@@ -136,6 +136,23 @@ class NPShim(types.ModuleType):
     def __getattr__(self, k):
         return getattr(self.__dict__['_base'], k)
 
+    @property
+    def linalg(self):
+        la = types.SimpleNamespace(**{k: getattr(_np.linalg, k) for k in dir(_np.linalg) if not k.startswith('_')})
+        real_eigh = _np.linalg.eigh
+
+        def eigh(m, *a, **k):
+            # only used by pyerrors.covariance for a warning about negative eigenvalues: stubbed (no claim on PSD)
+            ma = _np.asarray(m)
+            if ma.dtype == object:
+                return _np.zeros(len(ma)), None
+            return real_eigh(m, *a, **k)
+        la.eigh = eigh
+        over = self.__dict__.get('_linalg_over') or {}
+        for k, v in over.items():
+            setattr(la, k, v)
+        return la
+
     # ---- allocation
     @staticmethod
     def _obj(shape, fill):
